@@ -1,3 +1,4 @@
 import Glas.Props.C10
 #print axioms Glas.Props.C10.parser_no_precondition_panic
 #print axioms Glas.Props.C10.parser_terminates
+#print axioms Glas.Props.C10.parse_total
